@@ -133,6 +133,7 @@ class FakeResponse:
 class FakeGraph:
     """The simulated tenant: token endpoint + one site + one drive, behind request_func."""
     GRAPH = "https://graph.microsoft.com/v1.0"
+    OPTIONAL = ("webUrl", "size", "@microsoft.graph.downloadUrl", "parentReference", "listItem", "eTag", "createdBy")
 
     def __init__(self, srv, names, dates, *, site_url, drive_id, rng, log, creds):
         self.srv, self.names, self.dates = srv, names, dates      # names[i-1]: str ; dates[i-1]: (created, modified)
@@ -153,7 +154,13 @@ class FakeGraph:
         self.call_no = 0
         self.plan = None                    # (at, kind, code) for call 1
         self.last_url = None
-        self.bare = {i: rng.random() < 0.3 for i in range(1, srv["n"] + 1)}
+        # per-item rendering variants (Graph omits optional members freely): facet shape and which optional
+        # members are present.  The abstract kind is carried by the PRESENCE of the facet key alone.
+        self.shape = {}
+        for i in range(1, srv["n"] + 1):
+            r = rng.random()
+            omit = set(self.OPTIONAL) if r < 0.2 else set() if r < 0.4 else {k for k in self.OPTIONAL if rng.random() < 0.35}
+            self.shape[i] = {"facet": rng.randrange(3), "omit": omit, "listitem": rng.randrange(4)}
         self.ascii = rng.random() < 0.5
 
     # ---- server model, concretised
@@ -184,24 +191,31 @@ class FakeGraph:
         kind = self.srv["kind"][i - 1]
         name = self.names[i - 1]
         it = {"id": self.item_id[i], "name": name}
-        if kind == "folder":
-            it["folder"] = {"childCount": len(self.children(i))}
-        elif kind == "file":
-            it["file"] = {} if self.bare[i] else {"mimeType": "application/octet-stream", "hashes": {"quickXorHash": "x"}}
+        sh = self.shape[i]
+        nch = len(self.children(i))
+        if kind == "folder":        # facet: empty object (childCount omitted) | childCount | childCount + view
+            it["folder"] = [{}, {"childCount": nch}, {"childCount": nch, "view": {"viewType": "thumbnails", "sortBy": "name"}}][sh["facet"]]
+        elif kind == "file":        # facet: empty object | mimeType | mimeType + hashes
+            it["file"] = [{}, {"mimeType": "application/octet-stream"},
+                          {"mimeType": "application/pdf", "hashes": {"quickXorHash": "x", "sha1Hash": "y"}}][sh["facet"]]
         else:
-            it["package"] = {"type": "oneNote"}
+            it["package"] = [{}, {"type": "oneNote"}, {"type": "oneNote", "x": 1}][sh["facet"]]
         cr, mo = self.dates[i - 1]
         for key, val in (("createdDateTime", cr), ("lastModifiedDateTime", mo)):
             if val == "null":
                 it[key] = None
             elif val is not None:
                 it[key] = val
-        if not self.bare[i]:
-            it["webUrl"] = "https://contoso.sharepoint.com/sites/x/Shared%20Documents/" + self.item_id[i]
-            it["size"] = 1000 + i
-            it["@microsoft.graph.downloadUrl"] = "https://dl.example/" + self.item_id[i]
-            it["parentReference"] = {"driveId": self.drive_id or "b!default", "path": "/drive/root:"}
-            it["listItem"] = {"fields": {"id": str(i), "Title": "t", "CustomCategory": "Finance", "@odata.etag": "x"}}
+        opt = {"webUrl": "https://contoso.sharepoint.com/sites/x/Shared%20Documents/" + self.item_id[i],
+               "size": [0, 1000 + i][sh["facet"] > 0],
+               "@microsoft.graph.downloadUrl": "https://dl.example/" + self.item_id[i],
+               "parentReference": {"driveId": self.drive_id or "b!default", "path": "/drive/root:"},
+               "listItem": [{"fields": {"id": str(i), "Title": "t", "CustomCategory": "Finance", "@odata.etag": "x"}},
+                            {"fields": {}}, {}, {"fields": None}][sh["listitem"]],
+               "eTag": "\"{%d},1\"" % i, "createdBy": {"user": {"displayName": "U"}}}
+        for key in self.OPTIONAL:
+            if key not in sh["omit"] and not (key == "@microsoft.graph.downloadUrl" and kind != "file"):
+                it[key] = opt[key]
         return it
 
     def page_body(self, f, p, drive):
@@ -519,7 +533,8 @@ def run_case(case, idx, seed, filters, sp):
     return {"id": str(case.get("id", idx)), "hdr": hdr, "ev": log,
             "info": {"case": {k: x for k, x in case.items() if k != "idx"}, "idx": idx,
                      "names": names, "targets": folder_paths, "site_url": site_url, "drive_id": drive_id,
-                     "dates": [[str(a), str(b)] for a, b in dates]}}
+                     "dates": [[str(a), str(b)] for a, b in dates],
+                     "shapes": [[server.shape[i]["facet"], sorted(server.shape[i]["omit"])] for i in range(1, srv["n"] + 1)]}}
 
 
 def match_events(filter_cases, seed, sp):
